@@ -223,13 +223,16 @@ struct optional {
                     is_assignable_v<T&, U>
             and     is_constructible_v<T, U>
             and not is_same_v<optional, decay_t<U>>
-            and not is_scalar_v<T>
-            and not is_same_v<T, decay_t<U>>
+            and not (is_scalar_v<T> and is_same_v<T, decay_t<U>>)
         )
     // clang-format on
     constexpr auto operator=(U&& value) -> optional&
     {
-        emplace(etl::forward<U>(value));
+        if (has_value()) {
+            **this = etl::forward<U>(value);
+        } else {
+            emplace(etl::forward<U>(value));
+        }
         return *this;
     }
 
